@@ -236,6 +236,9 @@ pub struct WorldSpec {
     pub quotes: Vec<String>,
     /// the numerically extreme regime: 18 decimals, tiny prices, long rates, huge sizes
     pub extreme: bool,
+    /// history shape: 0 ordinary, 1 deep (large orders, many small fills / rejects on the same
+    /// pair), 2 wide (many orders open at once)
+    pub shape: u8,
 }
 
 const RATES: [&str; 21] = [
@@ -481,6 +484,11 @@ pub fn build_world(w: &[u32; WORLD_WORDS], p: &Profile) -> WorldSpec {
         convertibles,
         quotes,
         extreme,
+        shape: match pick(w[29], 10) {
+            8 => 1,
+            9 => 2,
+            _ => 0,
+        },
     }
 }
 
@@ -746,6 +754,30 @@ impl<'a> Interp<'a> {
         if !book.asks.values().any(|a| a.class == AskClass::Pending) {
             kinds[K_APPROVE] = kinds[K_APPROVE].min(1);
         }
+        match self.spec.shape {
+            1 => {
+                // deep: few orders, worked on again and again
+                if !book.asks.is_empty() {
+                    kinds[K_CREATE_ASK] = kinds[K_CREATE_ASK].min(3);
+                }
+                if !book.bids.is_empty() {
+                    kinds[K_CREATE_BID] = kinds[K_CREATE_BID].min(3);
+                }
+                kinds[K_MATCH] = kinds[K_MATCH].max(40);
+                for k in [K_CANCEL_ASK, K_CANCEL_BID, K_EXPIRE_ASK, K_EXPIRE_BID] {
+                    kinds[k] = kinds[k].min(1);
+                }
+            }
+            2 => {
+                // wide: the book fills up
+                kinds[K_CREATE_ASK] = kinds[K_CREATE_ASK].max(45);
+                kinds[K_CREATE_BID] = kinds[K_CREATE_BID].max(45);
+                for k in [K_CANCEL_ASK, K_CANCEL_BID, K_EXPIRE_ASK, K_EXPIRE_BID] {
+                    kinds[k] = kinds[k].min(1);
+                }
+            }
+            _ => {}
+        }
         let kind = weighted(w[0], &kinds);
         let faulty = gate(w[6], self.p.fault);
         let fw = w[5];
@@ -821,6 +853,9 @@ impl<'a> Interp<'a> {
         let mut quote = at(&cfg.quotes, pick(w[1], cfg.quotes.len()), "quote1");
         let mut price = price_string_x(w[4], w[8], self.spec.precision, self.spec.extreme);
         let mut size = size_of_x(w[3], cfg.increment, self.spec.extreme && gate(w[10].rotate_left(3), 600));
+        if self.spec.shape == 1 && !self.spec.extreme {
+            size = cfg.increment.saturating_mul(60 + (w[3] % 400) as u128);
+        }
         let mut id = uuid_of(self.next_ask);
         self.next_ask += 1;
         // the canonical spelling of a UUID that a legacy order carries un-hyphenated: a
@@ -915,6 +950,9 @@ impl<'a> Interp<'a> {
         let mut quote = at(&cfg.quotes, pick(w[1], cfg.quotes.len()), "quote1");
         let mut price = price_string_x(w[4], w[8], self.spec.precision, self.spec.extreme);
         let mut size = size_of_x(w[3], cfg.increment, self.spec.extreme && gate(w[10].rotate_left(3), 600));
+        if self.spec.shape == 1 && !self.spec.extreme {
+            size = cfg.increment.saturating_mul(60 + (w[3] % 400) as u128);
+        }
         if self.p.tie_seeking && gate(w[10], 500) {
             // totals that make rate x total land on or next to a half
             size = cfg.increment.saturating_mul(1 + (w[10] % 41) as u128);
@@ -1030,7 +1068,11 @@ impl<'a> Interp<'a> {
             }
         }
         let (a, b) = if !pairs.is_empty() && !(faulty && pick(fw, 16) == 0) {
-            pairs[pick(w[1], pairs.len())]
+            if self.spec.shape == 1 && gate(w[1].rotate_left(9), 800) {
+                pairs[0]
+            } else {
+                pairs[pick(w[1], pairs.len())]
+            }
         } else {
             (asks[pick(w[1], asks.len())], bids[pick(w[2], bids.len())])
         };
@@ -1065,6 +1107,11 @@ impl<'a> Interp<'a> {
                 }
             }
         };
+        if self.spec.shape == 1 && m > 3 * inc && gate(w[8].rotate_left(5), 850) {
+            // a small bite, so that the pair can be worked on many times
+            size = if gate(w[8].rotate_left(11), 500) { inc * (1 + (w[9] % 3) as u128) } else { 1 + (w[9] as u128 % (2 * inc)) };
+            size = size.min(m);
+        }
         let mut sender = at(&cfg.executors, pick(w[7], cfg.executors.len()), "acct0");
         let mut funds = vec![];
         let mut ask_id = a.id.clone();
